@@ -149,6 +149,8 @@ func fixedScenarios() []fixed {
 	})
 	// connection set-up variants
 	mk("dial-1-digi", func(sc *scenario) { sc.Digis = 1 })
+	mk("dial-ctx-cancelled-after-connect", func(sc *scenario) { sc.CancelCtx = true })
+	mk("dial-ctx-cancelled-after-connect-tcp", func(sc *scenario) { sc.Link, sc.Seg, sc.CancelCtx = "tcp", "cut30", true })
 	mk("dial-2-digis-tcp", func(sc *scenario) { sc.Link, sc.Seg, sc.Digis = "tcp", "cut30", 2 })
 	mk("accept", func(sc *scenario) { sc.Mode = "accept" })
 	mk("accept-tcp", func(sc *scenario) { sc.Link, sc.Seg, sc.Mode = "tcp", "cut30", "accept"; sc.End = "app-close" })
@@ -303,6 +305,7 @@ func randomStream(seed int64, i int) scenario {
 	} else {
 		sc.Digis = r.Intn(3)
 	}
+	sc.CancelCtx = sc.Mode != "accept" && sc.Seed%2 == 0
 	sc.MaxFrame = vrt.Pick(r, []int{1, 2, 4, 7})
 	sc.TTLMax = vrt.Pick(r, []int{1, 1, 1, 2, 2, 3})
 	sc.RegX = r.Intn(10) == 0
